@@ -65,6 +65,7 @@ func main() {
 			cfg.Preempt = *preempt
 		}
 		cfg.StopOnFirst = !*all
+		cfg.Thorough = *tier == "thorough"
 		cfg.Summarize = !*nosum
 		if *delays >= 0 {
 			cfg.Delays = *delays
